@@ -89,12 +89,14 @@ func runC01Tamper(rc *RunCtx) {
 	disk.OnWrite = append(disk.OnWrite, func(key string, val []byte, del bool) {
 		for _, p := range written {
 			if len(p) >= 8 && bytes.Contains(val, p) {
-				s.Violate("C01", "plaintext-on-disk", map[string]any{"key_class": keyClass(key)}, "a value written through the barrier appears in clear in the bytes stored under %q", key)
+				s.Violate("C01", "plaintext-on-disk", map[string]any{"key_class": keyClass(key)}, "a value written through the barrier appears in clear in the bytes stored under %q", shortKey(key))
 			}
 		}
 	})
 
 	lengths := []int{0, 1, 15, 16, 17, 100, 300, 4096}
+	padLen := []int{0, 0, 30, 100, 120, 130, 250, 260, 520, 1030, 4100}[tp.Pick(11)]
+	rc.Cfg("key_pad", padLen)
 	var recs []*c01Rec
 	nrec := 0
 	writeSome := func(n int) {
@@ -106,7 +108,14 @@ func runC01Tamper(rc *RunCtx) {
 				val[j] = byte('A' + (nrec*7+j*13)%53)
 			}
 			copy(val, fmt.Sprintf("PLAIN-%03d-", nrec))
-			key := []string{"logical/m1/", "logical/m2/", "sys/token/id/", "logical/m1/sub/"}[tp.Pick(4)] + fmt.Sprintf("k%d", nrec)
+			key := []string{"logical/m1/", "logical/m2/", "sys/token/id/", "logical/m1/sub/"}[tp.Pick(4)]
+			if padLen > 0 && tp.Pick(3) != 0 {
+				// long keys that agree on a long prefix and differ only at
+				// their tail (deep paths inside one mount of one namespace):
+				// key binding has to cover the whole key, not a bounded part
+				key += strings.Repeat("deep-path-segment/", padLen/18+1)[:padLen]
+			}
+			key += fmt.Sprintf("k%d", nrec)
 			r := &c01Rec{key: key, val: val}
 			r.v1 = tp.Pick(5) == 4
 			if r.v1 {
@@ -128,7 +137,7 @@ func runC01Tamper(rc *RunCtx) {
 			}
 			raw, ok := disk.RawGet(key)
 			if !ok || len(raw) < 5 {
-				s.Violate("C01", "record-missing-on-disk", nil, "record %q not on disk after put", key)
+				s.Violate("C01", "record-missing-on-disk", nil, "record %q not on disk after put", shortKey(key))
 				return
 			}
 			r.term = binary.BigEndian.Uint32(raw[:4])
@@ -187,12 +196,12 @@ func runC01Tamper(rc *RunCtx) {
 		disk.RawPut(r.key, orig)
 		sig := map[string]any{"mutation": kind, "via_tx": viaTx, "record_v1": r.v1}
 		if pan != "" {
-			s.Violate("C01", "panic-on-tampered-record", sig, "reading %q after %s panicked: %s", r.key, kind, pan)
+			s.Violate("C01", "panic-on-tampered-record", sig, "reading %q after %s panicked: %s", shortKey(r.key), kind, pan)
 			return false
 		}
 		if bytes.Equal(mutated, orig) {
 			if err != nil || !found || !bytes.Equal(val, r.val) {
-				s.Violate("C01", "identity-read-failed", sig, "unmodified record %q does not read back: %v", r.key, err)
+				s.Violate("C01", "identity-read-failed", sig, "unmodified record %q does not read back: %v", shortKey(r.key), err)
 				return false
 			}
 			return true
@@ -204,14 +213,14 @@ func runC01Tamper(rc *RunCtx) {
 			if bytes.Equal(val, r.val) {
 				// a mutation that still authenticates to the same value would be
 				// a malleable encoding; report it distinctly
-				s.Violate("C01", "tampered-record-accepted", sig, "record %q still reads back after %s", r.key, kind)
+				s.Violate("C01", "tampered-record-accepted", sig, "record %q still reads back after %s", shortKey(r.key), kind)
 				return false
 			}
-			s.Violate("C01", "tampered-record-returned-other-value", sig, "record %q returned a different value after %s: %q", r.key, kind, trunc(val, 40))
+			s.Violate("C01", "tampered-record-returned-other-value", sig, "record %q returned a different value after %s: %q", shortKey(r.key), kind, trunc(val, 40))
 			return false
 		}
 		if err == nil && !found {
-			s.Violate("C01", "tampered-record-read-as-absent", sig, "record %q reads as absent (no error) after %s", r.key, kind)
+			s.Violate("C01", "tampered-record-read-as-absent", sig, "record %q reads as absent (no error) after %s", shortKey(r.key), kind)
 			return false
 		}
 		return true
@@ -385,7 +394,7 @@ func runC01Tamper(rc *RunCtx) {
 	for _, r := range recs {
 		val, found, err, pan := get(false, r.key)
 		if pan != "" || err != nil || !found || !bytes.Equal(val, r.val) {
-			s.Violate("C01", "record-lost-after-tamper-cycle", nil, "record %q does not read back after the tamper cycle: %v %s", r.key, err, pan)
+			s.Violate("C01", "record-lost-after-tamper-cycle", nil, "record %q does not read back after the tamper cycle: %v %s", shortKey(r.key), err, pan)
 			return
 		}
 	}
@@ -402,6 +411,14 @@ func recSig(recs []*c01Rec) string {
 		fmt.Fprintf(&sb, "%d%v%v,", len(r.val), r.viaTx, r.v1)
 	}
 	return sb.String()
+}
+
+// shortKey elides the middle of long storage keys in messages.
+func shortKey(k string) string {
+	if len(k) <= 90 {
+		return k
+	}
+	return fmt.Sprintf("%s...(%d bytes)...%s", k[:40], len(k), k[len(k)-20:])
 }
 
 func trunc(b []byte, n int) []byte {
